@@ -91,7 +91,13 @@ decreases self.rest().len(),'''})),
     f.fn('is_id_continue', ret='r', props=ALLP, spec='ensures r == xid_continue(c),')
 
     f.impl(r"Cursor<'_>", [
-        ('advance_token', dict(ret='r', props=ALLP, all_loops='invariant advanced(*old(self), *self),\ndecreases self.rest().len(),', loop_ghost='broadcast use lex_lemmas;', ghost=[HEAD, ('let res = Token::new(token_kind, self.pos_within_token());', 'before', '''proof {
+        ('advance_token', dict(ret='r', props=ALLP, all_loops='invariant advanced(*old(self), *self),\ndecreases self.rest().len(),', loop_ghost='broadcast use lex_lemmas;', ghost=[HEAD,
+    # C15: a numeric literal directly followed by a time / imaginary unit ends before the unit (both numeric arms)
+    ('let literal_kind = self.number(c);\n                let suffix_start = self.pos_within_token();', 'after', 'let ghost cs1 = *self;'),
+    ('                TokenKind::Literal {\n                    kind: literal_kind,', 'before', 'proof { assert(unit_ahead(cs1.rest()) ==> *self == cs1); }      //@C15:unit-is-a-token-of-its-own\n'),
+    ('let literal_kind = self.float_with_no_leading_digit();\n                    let suffix_start = self.pos_within_token();', 'after', 'let ghost cs2 = *self;'),
+    ('                    TokenKind::Literal {\n                        kind: literal_kind,', 'before', 'proof { assert(unit_ahead(cs2.rest()) ==> *self == cs2); }      //@C15:unit-is-a-token-of-its-own\n'),
+    ('let res = Token::new(token_kind, self.pos_within_token());', 'before', '''proof {
     let n = eaten(*old(self), *self);
     assert(advanced(*old(self), *self));
     assert(old(self).tok() =~= Seq::<char>::empty());
@@ -197,7 +203,7 @@ proof { assert(self.rest() == s0.skip(k0)); if self.rest().len() > 1 { assert(se
         scanner('eat_float_exponent', *SB['eat_float_exponent'][:2], **SB['eat_float_exponent'][2]),
         scanner('eat_literal_suffix'),
         ('has_timing_or_imaginary_suffix', dict(props=ALLP, rewrites=[('D7', D7_OLD, D7_NEW)],
-                                                spec='ensures *final(self) == *old(self),')),
+                                                ret='r', spec='ensures *final(self) == *old(self), r == unit_ahead(old(self).rest()),      //@C15:unit-recognised')),
         scanner('eat_identifier', '', '''
     // maximal munch: nothing if the next character cannot start an identifier, otherwise it and the longest run of continue characters
     !(peek(*old(self)) == '_' || xid_start(peek(*old(self)))) ==> eaten(*old(self), *final(self)) == 0,          //@C15,C14:identifier-maximal-munch
